@@ -121,12 +121,12 @@ def replay(case, ctx):
 
 
 def plan(tier, seed):
-    n, per = (12, 500) if tier == "quick" else (15, 40000)
+    n, per = (15, 2400) if tier == "quick" else (15, 40000)
     sh = []
     for k in range(n):
         kinds = [["pv", "hostile"], ["hostile"], ["tag", "tag2", "hostile"], ["pv", "tag"]][k % 4]
         sh.append({"kind": "mem", "kinds": kinds, "n": per})
-    nc, perc = (4, 15) if tier == "quick" else (16, 130)
+    nc, perc = (8, 30) if tier == "quick" else (16, 130)
     sh += [{"kind": "cli", "n": perc} for _ in range(nc)]
     return sh
 
